@@ -25,6 +25,8 @@ var verifPrefixes = []string{
 	"ABC>ABC123>ABCDE",  // 8: X12, other residue
 	strings.Repeat("«äöüé»", 41) + "«ä", // 9: Base 256 run of 248 (+ free + tail: straddles the 249/250 length-field switch)
 	strings.Repeat("«äöüé»", 84), // 10: Base 256 run of 504: two-byte length field with a second byte that is not the remainder alone
+	"\r    ", // 11: X12 with two characters of the second triplet pending when the free character comes
+	"\r   ",  // 12: X12, one character pending
 }
 
 // verifLatin1 builds the Go string (UTF-8) for n free ISO-8859-1 code points.
@@ -55,7 +57,7 @@ func verifLatin1H(n int) (string, bool) {
 // VerifC02HighLevel: prefix + n free Latin-1 characters + tail.
 func VerifC02HighLevel(prefix, n, tail, shape int) {
 	free, high := verifLatin1H(n)
-	msg := verifPrefixes[prefix] + free + []string{"", "A", "12", "é"}[tail]
+	msg := verifPrefixes[prefix] + free + []string{"", "A", "12", "é", "1>AAAAA*>"}[tail]
 	// Known finding: characters >= 0x80 written with an upper shift (ASCII, C40, Text) are read
 	// back as raw bytes instead of UTF-8 text; inside a Base-256 run they are fine.
 	high = zv.Or(high, prefix == 5 || prefix >= 9 || tail == 3)
@@ -63,6 +65,13 @@ func VerifC02HighLevel(prefix, n, tail, shape int) {
 		zv.Reach("c02hl-empty")
 		return
 	}
+	// Known finding: X12 encodation meeting a lower-case letter before its triplet is complete
+	// refuses the text (after the fix: before it, characters were silently lost).
+	lower := false
+	if prefix == 11 && tail == 4 && n == 1 && len(free) == 1 {
+		lower = zv.And(free[0] >= 'a', free[0] <= 'z')
+	}
+	zv.Except("C02-x12-mid-triplet-refused", lower)
 	enc, err := encoder.EncodeHighLevel(msg, encoder.SymbolShapeHint(shape), nil, nil)
 	zv.Assert(err == nil && len(enc) > 0, "a short ISO-8859-1 message that fits was refused")
 	if err != nil {
